@@ -125,6 +125,7 @@ def run_case(case):
     # ------------------------------------------------------------------ vJ, vMin
     mon["vJ_pairs"] += 1
     tol = 1e-9 * tmpl.vJ + 10 * (rtol + atol / Tn) ** 2
+    tol_vJ = tol
     dj = abs(hyd.vJ - tmpl.vJ)
     if dj > tol:
         fail("vJ-disagrees", f"vJ general {hyd.vJ!r} vs template {tmpl.vJ!r} (diff {dj:.2e}, "
@@ -166,7 +167,17 @@ def run_case(case):
         if m.get("none") or m["error"] or t is None or t[0] is None:
             g_none = bool(m.get("none") or m["error"])
             t_none = t is None or t[0] is None
-            if g_none != t_none and m["branch"] != "template-fallback":
+            # (matchDeton locates the fold with scipy's bounded minimiser at its default
+            # absolute xatol = 1e-5 in temperature: in small units that alone leaves vJ
+            # undetermined to ~10 (1e-5/T_n)^2)
+            tol_side = max(2 * tol_vJ, 10 * ((1e-5 + atol) / Tn + rtol) ** 2)
+            if g_none != t_none and min(abs(vw - hyd.vJ), abs(vw - tmpl.vJ)) <= tol_side:
+                # inside the accuracy to which the two Jouguet velocities themselves are
+                # determined by the tolerances (atol is absolute: in small units it is a
+                # coarse relative accuracy on T): which side of vJ this velocity is on, and
+                # hence whether a detonation exists, is not decided
+                classes.append("one-side-no-solution:within-vJ-tolerance(not judged)")
+            elif g_none != t_none and m["branch"] != "template-fallback":
                 classes.append("one-side-no-solution")
                 other = m if t_none else None
                 if not t_none:
@@ -240,8 +251,11 @@ def run_case(case):
                     try:
                         tg = probe.ref_Tn(vw, m["vp"], m["Tp"])[0]
                         tt_ = probe.ref_Tn(vw, mt["vp"], mt["Tp"])[0]
-                        tolT = 10 * noiseT
-                        if abs(tg - Tn) > tolT and abs(tt_ - Tn) <= tolT:
+                        # C15 judges v+ at 2 noise / sensitivity: a general matching whose
+                        # own flow misses T_n by more than the noise while the template's is
+                        # an order of magnitude closer explains a disagreement of that size
+                        tolT = noiseT
+                        if abs(tg - Tn) > tolT and abs(tt_ - Tn) <= 0.3 * tolT:
                             # C03's known mechanism seen differentially: brentq over v+
                             # converged to a jump made by non-converged 2x2 solves
                             mech = "vp-root-search-over-nonconverged-matchings"
